@@ -959,6 +959,13 @@ class Exec:
                     if v2 == vn:
                         return Enum(efull, i, vn, vals)
                 raise Unsupported('variant %s of %s' % (vn, ep))
+        if '::' not in path:
+            if path in ('Less', 'Equal', 'Greater'):
+                return ordering({'Less': -1, 'Equal': 0, 'Greater': 1}[path])
+            if path in ('None', 'Some'):
+                return Enum('Option', 0 if path == 'None' else 1, path, vals)
+            if path in ('Ok', 'Err'):
+                return Enum('Result', 0 if path == 'Ok' else 1, path, vals)
         full, info = prog.struct_fields(path)
         if info is not None:
             return Struct(full, vals, None)
